@@ -339,8 +339,10 @@ def check(ctx, case, schedule, r):
                      and o['enter'] > last_conn['exit']]
             # a disconnect that overlapped the connect may have run before
             # or after it took effect: undecided
-            overl = [o for o in before if o['op'].startswith('disconnect')
-                     and o['enter'] < last_conn['exit'] < o['exit']]
+            overl = [o for o in calls if o['op'].startswith('disconnect')
+                     and o['enter'] < last_conn['exit'] and
+                     o['exit'] > last_conn['enter'] and
+                     o['enter'] < c['enter']]
             if discs:
                 ended = True
             elif overl:
@@ -443,6 +445,10 @@ SMALL = [
     {'programs': [['connect', 'disconnect', 'connect', 'disconnect', 'step',
                    'connect', 'step', 'disconnect']],
      'servers': ['silent', 'silent', 'silent']},
+    {'programs': [['connect', 'disconnect', 'connect', 'disconnect',
+                   'connect', 'step', 'connect', 'step', 'connect',
+                   'disconnect']],
+     'servers': ['silent', 'silent', 'silent', 'silent', 'silent']},
     {'programs': [['connect', 'step', 'disconnect', 'step', 'connect',
                    'disconnect', 'step', 'step', 'connect']],
      'servers': ['silent', 'silent', 'silent']},
